@@ -182,6 +182,39 @@ PROPS["C04"] = dict(_QUERY_COMMON,
          "non-target graphs (and, when rejected before execution, all graphs) unchanged. Statements whose WHERE answer is left open are executed, checked for collateral changes, and the "
          "model is re-synchronised. Non-trivial: at least one statement changed the store; distinct = distinct (statement kinds and outcomes, data)")
 
+PROPS["C05"] = dict(
+    simulated=True,
+    level="exploration",
+    instrument=ENGINE_FILES,
+    budget=dict(quick=30, thorough=900),
+    rule="graphs of 0-13 triples over the documented domain (plain values in half of the cases; in the other half also its corners: ids with quotes, '@[', ']', backslashes, non-ASCII; "
+         "anchors in several zones with nanoseconds; int64 extremes; -0, +-Inf, subnormal and huge floats; text containing the literal / predicate delimiters; empty blobs; predicate-valued "
+         "objects) pushed through the pipeline graph -> io.WriteGraph (its producer goroutine scheduled by the seed) -> simulated writer -> disk image -> simulated reader (1..k bytes per call, "
+         "(n>0,EOF), interspersed (0,nil) reads) -> io.ReadIntoGraph -> empty graph. Oracle: set equality by structural keys, both calls report the number of triples, re-export is byte "
+         "identical, WriteGraph returns / leaves no goroutine. Fault configuration (1 case in 4): writer or reader fails at byte k - the call must return an error. Each value also goes "
+         "through a print / re-parse probe (input sampling, labelled as such). Non-trivial: non-empty graph or a fired fault; distinct = distinct (graph, stream behaviour)",
+    components_real=["io.WriteGraph / io.ReadIntoGraph (real code, WriteGraph instrumented)", "storage/memory (real code)", "triple, node, predicate, literal parsers and printers (real code)"],
+    components_stub=["simulated disk: writer failing at byte k, reader with arbitrary legal chunking / failing at byte k (x/harness/simio.go)", "seeded scheduler in a synctest bubble for WriteGraph"],
+    assumptions=["the value-level clause of C05 (every value prints and re-parses) is a pure function of the value: it is exercised as the content of the pipeline and as a labelled input-sampling probe, not claimed for all values",
+                 "text literals containing line breaks are outside the line protocol and not generated"],
+)
+PROPS["C15"] = dict(
+    level="fault_enumeration",
+    instrument=ENGINE_FILES,
+    budget=dict(quick=30, thorough=900),
+    rule="a generated graph of 1-5 triples is exported to the simulated disk; then EVERY truncation point of the image (torn write; images up to 400 bytes, 120 sampled points beyond), 60 "
+         "sampled bit flips and every single-line duplication and drop are applied, one damaged image per execution. Each damaged image is read with io.ReadIntoGraph through the adversarial "
+         "reader into an empty graph, and every line and every tab separated field of it is handed to triple.Parse, node.Parse, predicate.Parse, the literal builder and triple.ParseObject. "
+         "Oracle: no panic; never (nil / empty value, nil error); an accepted value prints to text that is accepted again as an equal value; the reader loads exactly the triples of the lines "
+         "before the first line the reference line recogniser (written from the docs) rejects and reports that count - a line the reference rejects but the implementation accepts is judged by "
+         "the print / re-parse rule instead. evaluations = damaged images; non-trivial: non-empty graph; distinct = distinct graphs",
+    exhaustive_note="exhaustive over the truncation points of each sampled image (<= 400 bytes) and over single-line duplications / drops; flips and images are sampled",
+    components_real=["io.ReadIntoGraph, triple.Parse, triple.ParseObject, node.Parse, predicate.Parse, literal builder Parse (real code)", "storage/memory (real code)"],
+    components_stub=["simulated disk image with torn / flipped / duplicated / dropped content, adversarial reader", "reference line recogniser (regular expressions + strconv/time, x/harness/serial.go)"],
+    assumptions=["claimed for malformed text as produced by storage faults on valid exports (and for the reader clause); exhaustive enumeration of all short strings is input enumeration and not done",
+                 "besides the fields of the damaged lines, their one- and two-character prefixes and their tails are tried (what a write torn inside a delimiter leaves), incl. the empty string"],
+)
+
 # ---------------------------------------------------------------------------
 # Texts for MANIFEST.json (level claimed, trusted base, technique)
 MANIFEST_TEXT = {}
@@ -241,3 +274,11 @@ MANIFEST_TEXT["C04"] = dict(
     text="seeded exploration of statement histories against a reference model of the whole store, compared in full after every statement, with the engine's writer concurrency scheduled by the seed",
     note="trusted base: the store model and template instantiation in x/harness/stmts.go, the reference evaluator, x/sim, simulated driver",
     technique="deterministic simulation: statement histories as simulated clients over a simulated driver around one real store, step-by-step refinement against a reference model incl. structural blank-node comparison")
+MANIFEST_TEXT["C05"] = dict(
+    text="seeded exploration of the export / import stream pipeline under adversarial but legal reader and writer behaviour and under write / read failures at byte k, plus a labelled value-level probe",
+    note="trusted base: structural key functions, simulated disk, x/sim for WriteGraph's goroutine; values are sampled",
+    technique="deterministic simulation of the I/O pipeline: simulated disk (chunking, short reads, EOF shapes, failures at byte k), WriteGraph as a simulated client, round-trip oracle on structural keys")
+MANIFEST_TEXT["C15"] = dict(
+    text="fault enumeration on the simulated disk: every truncation point (and sampled flips, line duplications and drops) of each exported image is fed to the reader and the parsers",
+    note="trusted base: the reference line recogniser written from the documentation, structural keys; images are sampled, truncation points enumerated",
+    technique="deterministic fault injection on a simulated disk image (torn write at every byte, bit flips, duplicated / lost lines) + reader / parser oracles (no panic, no nil-nil, re-parse, prefix-loaded)")
